@@ -66,6 +66,20 @@ Section Gen.
                c parsed ident ip r0 b Hbare Hpath Hfrag Hbody Hconn Hcl key Hs Hk).
   Qed.
 
+  (* every attempt that reaches the upstream (after an upstream fault there may be several) verifies
+     and carries the whole body *)
+  Theorem g_every_attempt_verifies n :
+    Forall (fun rr =>
+              r_body rr = Some (body_bytes r0) /\
+              (c_skip c = false -> forall sk, c_signer c = Some sk -> verify_rsa g_cov (published_certs c) rr = Some true) /\
+              (c_skip c = false -> forall key, c_hmac c = Some key -> verify_hmac g_covh key rr = 3))
+           (attempts n g_cov g_covh c parsed ident ip r0).
+  Proof.
+    apply Forall_forall. intros rr Hin. unfold attempts in Hin. apply repeat_spec in Hin. subst rr.
+    destruct g_signed_is_received as (_&_&_&V1&V2).
+    split; [apply body_intact | split; assumption].
+  Qed.
+
   Theorem g_kid_names_key sk :
     c_skip c = false -> c_signer c = Some sk ->
     let rr := received g_cov g_covh c parsed ident ip r0 in
